@@ -48,7 +48,7 @@ Record colobs := mkco {
   co_post_o : option bytes;             (* WIP buffer after consolidateColumnTypes; None = unchanged *)
   co_enc : N;                           (* encoding byte on disk; 255 = the column has no block *)
   co_payload_o : option bytes;          (* payload on disk (raw blocks: after zstd decompression); None = equal to co_post *)
-  co_seen : N;                          (* AllSeenColumnSizes; 0 = no entry *)
+  co_seen : N;                          (* AllSeenColumnSizes after the flush; 0 = no entry *)
   (* records returned by the real SegmentFileReader, each given as (offset, length) of an occurrence
      of its bytes in the payload (the harness checks the bytes are there) *)
   co_recs_p : option (list (N * N));    (* constant length not passed (match-all path) *)
@@ -124,7 +124,7 @@ Variable fc : fconv.
 Variable card : N.
 
 (* checks of one column; returns the numbers of the failed checks *)
-Definition check_col (n : nat) (st1 : store) (cols2 : list (key * colwip)) (o : colobs) : list nat :=
+Definition check_col (n : nat) (st1 st2 : store) (cols2 : list (key * colwip)) (o : colobs) : list nat :=
   let k := co_name o in
   let cw := get_cw k (st_cols st1) in
   let cw2 := get_cw k cols2 in
@@ -146,8 +146,8 @@ Definition check_col (n : nat) (st1 : store) (cols2 : list (key * colwip)) (o : 
           | None => [4%nat]
           end
    end) ++
-  (* 5: AllSeenColumnSizes *)
-  (if (match get k (st_seen st1) with Some s => s | None => 0 end) =? co_seen o then [] else [5%nat]) ++
+  (* 5: AllSeenColumnSizes after the flush *)
+  (if (match get k (st_seen st2) with Some s => s | None => 0 end) =? co_seen o then [] else [5%nat]) ++
   (* 6: the real reader on the real block (no constant length) = the model's reader on the same bytes,
         and = the model's reader on the model's own block *)
   (if co_enc o =? 255 then []
@@ -173,9 +173,9 @@ Definition check_col (n : nat) (st1 : store) (cols2 : list (key * colwip)) (o : 
       end)).
 
 Definition check_block (st : store) (evs : list event) (o : blockobs) : list nat * store :=
-  let st1 := fold_left (add_event card) evs st in
+  let st1 := fold_left (add_event false card) evs st in
   let '(cols2, _, _) := consolidate fc (map fst (st_inblock st1)) (st_cols st1) (st_blooms st1) (st_ris st1) in
-  let '(fb, st2) := flush_block fc card st1 in
+  let '(fb, st2) := flush_block fc false card st1 in
   let n := N.to_nat (st_rc st1) in
   let r :=
     (if (st_rc st1 =? bo_n o) then [] else [90%nat]) ++
@@ -188,7 +188,7 @@ Definition check_block (st : store) (evs : list event) (o : blockobs) : list nat
      | None, None => []
      | _, _ => [93%nat]
      end) ++
-    concat (map (check_col n st1 cols2) (bo_cols o)) in
+    concat (map (check_col n st1 st2 cols2) (bo_cols o)) in
   (r, st2).
 
 Fixpoint check_ops (idx : nat) (st : store) (ops : list sop) (obs : list blockobs) : list nat :=
@@ -213,7 +213,7 @@ Fixpoint run_ops (st : store) (ops : list sop) : list fblock :=
   match ops with
   | [] => []
   | SBlock evs :: r =>
-    let '(fb, st2) := flush_block fc card (fold_left (add_event card) evs st) in
+    let '(fb, st2) := flush_block fc false card (fold_left (add_event false card) evs st) in
     fb :: run_ops st2 r
   | SRotate :: r => run_ops (rotate_store st) r
   | SRestart :: r => run_ops (init_store []) r
